@@ -1193,6 +1193,7 @@ fn churn(st: &mut SeqStats, fl: Flavour, fut: bool, cycles: usize, early_drop: b
     let mut plateau: Vec<(usize, isize, usize)> = Vec::new();
     let marks = [cycles / 4, cycles / 2, (3 * cycles) / 4, cycles];
     let mut val = 1;
+    let mut reported = false;
     for i in 1..=cycles {
         match kind {
             0 => {
@@ -1216,9 +1217,32 @@ fn churn(st: &mut SeqStats, fl: Flavour, fut: bool, cycles: usize, early_drop: b
         // of cycles during which they were idle)
         if i % burst == 0 {
             run(opv(TrySend, 0, val));
-            val += 1;
+            let sent = ctx.hist.lk().last().map(|e| e.res.clone());
+            let want_send = if kind == 4 { Res::Disc(val) } else { Res::Ok };
+            let mut bad: Option<String> = None;
+            if sent.as_ref() != Some(&want_send) {
+                bad = Some(format!("try_send gave {:?}, the model says {:?}", sent, want_send));
+            }
             if kind != 4 {
                 run(op(TryRecv, 1));
+                let got = ctx.hist.lk().last().map(|e| e.res.clone());
+                if bad.is_none() && got != Some(Res::Val(val)) {
+                    bad = Some(format!("try_recv gave {:?}, the model says Val({})", got, val));
+                }
+            }
+            val += 1;
+            if let Some(b) = bad {
+                if !reported {
+                    reported = true;
+                    for prop in ["C09", "C12"] {
+                        st.find(
+                            prop,
+                            format!("{}|churn-result-differs-from-model|{}", prop, label),
+                            &format!("churn kind={} cycles={} early_drop={} burst={}", kind, cycles, early_drop, burst),
+                            format!("after {} cycles: {}", i, b),
+                        );
+                    }
+                }
             }
         }
         ctx.hist.lk().clear();
@@ -1268,6 +1292,184 @@ fn churn(st: &mut SeqStats, fl: Flavour, fut: bool, cycles: usize, early_drop: b
             "churn",
             format!("{:?}", m),
         );
+    }
+}
+
+/// Population sweep of the futures wake-up lists: K = 1..=12 tasks parked at the
+/// same time (the implementation switches code paths on the number of parked
+/// tasks), then the one operation that lets all of them make progress. Every
+/// parked task must have been notified when that operation returns, and its
+/// next poll must give what the model says.
+fn crowd(st: &mut SeqStats, fl: Flavour, mode: usize, k: usize) {
+    let modes = [
+        "streams-parked-then-send",
+        "shared-stream-tasks-parked-then-last-sender-dropped",
+        "streams-parked-then-last-sender-dropped",
+        "sinks-parked-then-receive",
+        "sinks-parked-then-last-receiver-dropped",
+        "sinks-parked-then-poll",
+    ];
+    if fl == Flavour::M && (mode == 0 || mode == 2) {
+        return; // one stream only
+    }
+    let qc = crate::catalog::qf(fl, 1, (0, 0));
+    let label = format!(
+        "{}-fut|{}|{}",
+        if fl == Flavour::B { "bcast" } else { "mpmc" },
+        modes[mode],
+        if k > 8 { "more-than-8-parked" } else { "up-to-8-parked" }
+    );
+    let hist_s = format!("crowd mode={} k={}", modes[mode], k);
+    rt::exec_begin();
+    ledger_reset(0);
+    rt::set_seq_horizon(50_000);
+    let ctx = Ctx::new(qc);
+    let _ = rt::seq_call(|| ctx.create());
+    let mut calls = 0u64;
+    let mut run = |o: Op| -> Option<Res> {
+        calls += 1;
+        match rt::seq_call(|| ctx.exec(MAIN, &o)) {
+            Ok(true) => ctx.hist.lk().last().map(|e| e.res.clone()),
+            _ => Some(Res::Blocked),
+        }
+    };
+    let mut problems: Vec<(&'static str, String)> = Vec::new();
+    let _ = rt::take_seq_notifies();
+    let extra: Vec<u8> = (2..2 + k as u8).collect();
+    match mode {
+        0 | 1 | 2 => {
+            // k extra stream tasks (+ the original receiver) park on an empty queue
+            for &h in &extra {
+                if mode == 1 {
+                    run(opd(CloneH, 1, h));
+                } else {
+                    run(opd(AddStream, 1, h));
+                }
+            }
+            let mut parked: Vec<u8> = vec![1];
+            parked.extend(&extra);
+            for &h in &parked {
+                let r = run(op(PollS, h));
+                if r != Some(Res::NotReady) {
+                    problems.push(("C15", format!("poll of an empty queue gave {:?}", r)));
+                }
+            }
+            let _ = rt::take_seq_notifies();
+            let ev = if mode == 0 { opv(TrySend, 0, 7) } else { op(DropH, 0) };
+            let r = run(ev);
+            if mode == 0 && r != Some(Res::Ok) {
+                problems.push(("C15", format!("try_send into an empty queue gave {:?}", r)));
+            }
+            let notes = rt::take_seq_notifies();
+            let missing: Vec<u8> = parked.iter().copied().filter(|h| !notes.contains(&(100 + *h as usize))).collect();
+            if !missing.is_empty() {
+                let d = format!(
+                    "{} stream tasks parked; after {:?} the tasks of handles {:?} were not notified (notified: {:?})",
+                    parked.len(), ev.k, missing, notes
+                );
+                problems.push(("C14", d.clone()));
+                if mode != 0 {
+                    problems.push(("C07", d));
+                }
+            }
+            // what each task sees when it polls again
+            let mut got_val = 0;
+            for &h in &parked {
+                let r = run(op(PollS, h));
+                let ok = match (mode, &r) {
+                    (0, Some(Res::Val(7))) => {
+                        got_val += 1;
+                        true
+                    }
+                    (1, Some(Res::End)) | (2, Some(Res::End)) => true,
+                    _ => false,
+                };
+                if !ok && mode != 0 {
+                    problems.push(("C07", format!("after the last sender left, poll of handle {} gave {:?}", h, r)));
+                }
+                if !ok && mode == 0 {
+                    problems.push(("C15", format!("after one send, poll of stream handle {} gave {:?}", h, r)));
+                }
+            }
+            let _ = got_val;
+        }
+        _ => {
+            // k sink tasks park on a full queue (capacity 1)
+            for &h in &extra {
+                run(opd(CloneH, 0, h));
+            }
+            let r = run(opv(TrySend, 0, 7));
+            if r != Some(Res::Ok) {
+                problems.push(("C15", format!("first try_send gave {:?}", r)));
+            }
+            for (i, &h) in extra.iter().enumerate() {
+                let r = run(opv(StartSend, h, 20 + i as u32));
+                if r != Some(Res::NotReadyMsg(20 + i as u32)) {
+                    problems.push(("C15", format!("start_send on a full queue gave {:?}", r)));
+                }
+            }
+            let _ = rt::take_seq_notifies();
+            let ev = match mode {
+                3 => op(TryRecv, 1),
+                4 => op(DropH, 1),
+                _ => op(PollS, 1),
+            };
+            let r = run(ev);
+            if mode != 4 && r != Some(Res::Val(7)) {
+                problems.push(("C15", format!("{:?} on a full queue gave {:?}", ev.k, r)));
+            }
+            let notes = rt::take_seq_notifies();
+            let missing: Vec<u8> = extra.iter().copied().filter(|h| !notes.contains(&(200 + *h as usize))).collect();
+            if !missing.is_empty() {
+                let d = format!(
+                    "{} sink tasks parked; after {:?} the tasks of handles {:?} were not notified (notified: {:?})",
+                    extra.len(), ev.k, missing, notes
+                );
+                problems.push(("C14", d.clone()));
+                if mode == 4 {
+                    problems.push(("C13", d));
+                }
+            }
+            // the first task to retry gets the slot, the others are refused again
+            for (i, &h) in extra.iter().enumerate() {
+                let v = 20 + i as u32;
+                let r = run(opv(StartSend, h, v));
+                let ok = match mode {
+                    4 => r == Some(Res::SinkErr(v)),
+                    _ => (i == 0 && r == Some(Res::Ready)) || (i > 0 && r == Some(Res::NotReadyMsg(v))),
+                };
+                if !ok {
+                    problems.push((
+                        if mode == 4 { "C13" } else { "C15" },
+                        format!("retry of start_send #{} after {:?} gave {:?}", i, ev.k, r),
+                    ));
+                }
+            }
+        }
+    }
+    st.histories += 1;
+    st.calls += calls;
+    st.depth = st.depth.max(calls as usize);
+    st.states.insert(0xC0_0000 + (mode as u64) * 1000 + (k as u64) * 10 + if fl == Flavour::B { 1 } else { 0 });
+    let mut seen: Vec<&'static str> = Vec::new();
+    for (prop, d) in problems {
+        if seen.contains(&prop) {
+            continue;
+        }
+        seen.push(prop);
+        st.find(prop, format!("{}|crowd|{}", prop, label), &hist_s, d);
+    }
+    let _ = rt::seq_call(|| {
+        for i in 0..NSLOTS as u8 {
+            if ctx.slot_live(i) {
+                ctx.exec(MAIN, &op(DropH, i));
+            }
+        }
+    });
+    let _ = rt::seq_call(|| tracked(|| drop(ctx)));
+    let mem = rt::exec_end();
+    for m in &mem.faults {
+        st.find("C16", format!("C16|{:?}|crowd|{}", m, label), &hist_s, format!("{:?}", m));
     }
 }
 
@@ -1349,9 +1551,16 @@ pub fn main(prop: &str, tier: Tier, si: usize, sk: usize) {
             pump(&mut st, fl, fut, cap, &label);
         }
     }
-    if prop == "C17" {
+    if matches!(prop, "C17" | "C12" | "C09") {
+        // C17 judges the memory held during the churn; C09 and C12 the results of
+        // the calls the fixed handles make between the cycles
         let mut jobs = Vec::new();
-        let sizes: &[usize] = if thorough { &[100, 1000, 10_000, 100_000] } else { &[100, 1000] };
+        let sizes: &[usize] = match (prop, thorough) {
+            ("C17", true) => &[100, 1000, 10_000, 100_000],
+            ("C17", false) => &[100, 1000],
+            (_, true) => &[100, 1000],
+            (_, false) => &[100],
+        };
         for fl in [Flavour::B, Flavour::M] {
             for fut in [false, true] {
                 for &cy in sizes {
@@ -1376,6 +1585,21 @@ pub fn main(prop: &str, tier: Tier, si: usize, sk: usize) {
             st.configs.push(format!("churn:{:?}:{}:{}:{}:{}:{}", fl, fut, cy, early, kind, burst));
             churn(&mut st, fl, fut, cy, early, kind, burst);
         }
+    }
+    if matches!(prop, "C14" | "C07" | "C13" | "C15") {
+        let mut j = 0;
+        for fl in [Flavour::B, Flavour::M] {
+            for mode in 0..6 {
+                for k in 1..=12usize {
+                    j += 1;
+                    if j % sk != si {
+                        continue;
+                    }
+                    crowd(&mut st, fl, mode, k);
+                }
+            }
+        }
+        st.configs.push("crowd:1..12-parked-tasks".to_string());
     }
     print(&st);
 }
